@@ -1086,7 +1086,10 @@ def lat45(ctx):
                        gnn)
             else:
                 if len(par_conds) != 1:
-                    raise AnalysisError(f"{ci.qualname}: unmodelled parity structure")
+                    ctx.rep.note(f"{ci.qualname}.get_nearest_neighbors [{label}]: the neighbour set depends on the position "
+                                 f"through {len(par_conds)} conditions; the offset-symmetry rules model one parity "
+                                 f"condition and are not applicable here")
+                    continue
                 A, B = sets[(True,)], sets[(False,)]
                 va, vb = [o[0] for o in A], [o[0] for o in B]
                 pc = par_conds[0]
